@@ -18,6 +18,17 @@ def gen_case(rng, sopts=None, dopts=None, tries=20):
                 break
         else:
             continue
+        try:
+            # Scope: a default that itself conforms to a later map/array branch
+            # of a recursive type denotes an infinite value under the C09
+            # branch rule (the default of `y: [Rec, map<R>]` is re-dispatched
+            # to map<R>, whose values again omit `y` ...).  Such schemas have
+            # no finite encoding of the datum; they are left out.
+            RC.from_datum(node, d, not dopts.get("no_tuples"))
+        except RecursionError:
+            continue
+        except Exception:
+            pass
         return {
             "schema": js,
             "node": node,
